@@ -24,6 +24,9 @@ def generate(rng, tier):
     out += [sc.gen_dynamic(rng, faults=(rng.random() < 0.5)) for _ in range(250 * n)]
     out += sc.gen_broad(rng, 150 * n)
     out += sc.gen_hookraise(rng, 80 * n)
+    # manual driving ending in doist.exit(); (a do() over doers whose manual run was never exited abandons the old
+    # generators to the garbage collector: the scheduler did not stop them, so their order is not this property's)
+    out += sc.gen_manual(rng, 60 * n, thens=("exit",))
     return out
 
 
